@@ -6,15 +6,28 @@ Line protocol of C17 (driver_c17).
               matrix clipProp isRoot bg border borderSides outline color collapse emptyCellsShow cellEmpty (colgroup …))
   z      ::= auto | int          matrix ::= none | sing | code        bg ::= none | transparent | code
   border, outline ::= none | code          colgroup ::= (id bg ((id bg) …))
+Style-level forms (what layout reads; the driver applies `boxBackground` / `boxMatrix` of Model/LaidOut):
+  bg     ::= (S visible colour images)           colour ::= transparent | code
+  matrix ::= (T (bbx bby bw bh) (oxv oxpct oyv oypct) (fn …))      fn as in Drive/Transform
 
 Commands:
   frompage <attrs of the page> (box …)            → the StackingContext built by `from_page`, canonical
   paint    <attrs of the page> <canvas bg> (box …) → the display list of `draw_page`, or `err:<Class>`
+  paintdoc <attrs of the page> (rootHtml (isBody …)) (box …)
+                                                   → the display list of `Page.paint`: `layout_backgrounds`
+                                                     (canvas from the root element or its <body> child), then
+                                                     `draw_page`; `isBody` for every child of the root box
+  laidout  <attrs of the page> (rootHtml (isBody …)) (box …)
+                                                   → `canvas (id bg matrix) …`: what layout leaves in
+                                                     `page.canvas_background`, `box.background`,
+                                                     `box.transformation_matrix` for every box in tree order
   sortz    (z …)                                   → order of the indexes after the stable sort by z
 -/
 import WpModel.Model.Wire
 import WpModel.Model.Stacking
 import WpModel.Model.PaintOrder
+import WpModel.Model.LaidOut
+import WpModel.Drive.Transform
 
 namespace Wp.Drive.Stacking
 open Wp Wp.Stacking Wp.Gen
@@ -28,6 +41,15 @@ def bg? : Sx → Option (Option (Option Nat))
   | .atom "transparent" => some (some none)
   | x => x.nat?.map (fun c => some (some c))
 
+/-- `box.background`, given (legacy form) or computed from the style by `boxBackground`. -/
+def bgWire? (isPage : Bool) : Sx → Option (Option (Option Nat))
+  | .list [.atom "S", vis, colour, images] => do
+    let colour ← match colour with
+      | .atom "transparent" => some none
+      | x => x.nat?.map some
+    pure (boxBackground isPage { visible := (← vis.bool?), colour := colour, images := (← images.nat?) })
+  | x => bg? x
+
 def optNat? : Sx → Option (Option Nat)
   | .atom "none" => some none
   | x => x.nat?.map some
@@ -37,25 +59,36 @@ def mat? : Sx → Option Mat
   | .atom "sing" => some .singular
   | x => x.nat?.map .regular
 
+/-- `box.transformation_matrix`, given (legacy form) or computed from the style by `boxMatrix`. -/
+def matWire? (k : Kind) : Sx → Option Mat
+  | .list [.atom "T", .list [bbx, bby, bw, bh], .list [oxv, oxp, oyv, oyp], .list fns] => do
+    let fns ← allSome Wp.Drive.Transform.fn? fns
+    pure (boxMatrix k {
+      bbx := (← bbx.rat?), bby := (← bby.rat?), bw := (← bw.rat?), bh := (← bh.rat?),
+      ox := { value := (← oxv.rat?), percent := (← oxp.bool?) },
+      oy := { value := (← oyv.rat?), percent := (← oyp.bool?) }, fns := fns })
+  | x => mat? x
+
 def col? : Sx → Option (Nat × Option (Option Nat))
-  | .list [i, b] => do pure ((← i.nat?), (← bg? b))
+  | .list [i, b] => do pure ((← i.nat?), (← bgWire? false b))
   | _ => none
 
 def colGroup? : Sx → Option ColGroup
   | .list [i, b, .list cols] => do
-    pure { id := (← i.nat?), bg := (← bg? b), cols := (← allSome col? cols) }
+    pure { id := (← i.nat?), bg := (← bgWire? false b), cols := (← allSome col? cols) }
   | _ => none
 
 def attrs? : Sx → Option Attrs
   | .list [id, kind, pos, abs, z, grid, op, st, ov, fl, vis, mat, clip, root, bg, border, sides, outline,
            color, collapse, ecs, cempty, .list groups] => do
+    let k ← kind.atom?.bind Kind.ofName?
     pure {
-      id := (← id.nat?), kind := (← kind.atom?.bind Kind.ofName?),
+      id := (← id.nat?), kind := k,
       positioned := (← pos.bool?), absPos := (← abs.bool?), z := (← zed? z),
       gridItem := (← grid.bool?), opacity := (← op.rat?), styleTransform := (← st.bool?),
       overflowVisible := (← ov.bool?), floated := (← fl.bool?), visible := (← vis.bool?),
-      matrix := (← mat? mat), clipProp := (← clip.bool?), isRoot := (← root.bool?),
-      bg := (← bg? bg), border := (← optNat? border), borderSides := (← sides.nat?), outline := (← optNat? outline),
+      matrix := (← matWire? k mat), clipProp := (← clip.bool?), isRoot := (← root.bool?),
+      bg := (← bgWire? k.drawPage bg), border := (← optNat? border), borderSides := (← sides.nat?), outline := (← optNat? outline),
       color := (← color.nat?), collapse := (← collapse.bool?), emptyCellsShow := (← ecs.bool?),
       cellEmpty := (← cempty.bool?), colGroups := (← allSome colGroup? groups) }
   | _ => none
@@ -102,6 +135,27 @@ def errClass : PyErr → String
   | .recursion _ => "err:RecursionError"
   | .valueError _ => "err:ValueError"
 
+def showBg : Option (Option Nat) → String
+  | none => "none"
+  | some none => "transparent"
+  | some (some c) => toString c
+
+def showMat : Mat → String
+  | .none => "none"
+  | .singular => "sing"
+  | .regular c => toString c
+
+def showAttrsLaidOut (a : Attrs) : List String :=
+  ("(" ++ toString a.id ++ " " ++ showBg a.bg ++ " " ++ showMat a.matrix ++ ")") ::
+    a.colGroups.flatMap (fun g =>
+      ("(" ++ toString g.id ++ " " ++ showBg g.bg ++ " none)") ::
+        g.cols.map (fun c => "(" ++ toString c.1 ++ " " ++ showBg c.2 ++ " none)"))
+
+partial def showLaidOut : Box → List String
+  | .leaf a => showAttrsLaidOut a
+  | .node a kids => showAttrsLaidOut a ++ kids.flatMap showLaidOut
+  | .ph b => showLaidOut b
+
 def handle (cmd : String) (args : List Sx) : Option String :=
   match cmd, args with
   | "frompage", [page, .list kids] => do
@@ -117,6 +171,24 @@ def handle (cmd : String) (args : List Sx) : Option String :=
     match runItems (drawPage page canvas kids) with
     | .error e => pure (errClass e)
     | .ok items => pure (" ".intercalate (items.filterMap showItem))
+  | "paintdoc", [page, .list [rootHtml, .list flags], .list kids] => do
+    let page ← attrs? page
+    let rootHtml ← rootHtml.bool?
+    let flags ← allSome Sx.bool? flags
+    let kids ← allSome box? kids
+    if (fromPage page kids).2 then pure "err:AssertionError" else
+    match runItems (drawDocument page rootHtml flags kids) with
+    | .error e => pure (errClass e)
+    | .ok items => pure (" ".intercalate (items.filterMap showItem))
+  | "laidout", [page, .list [rootHtml, .list flags], .list kids] => do
+    let _ ← attrs? page
+    let rootHtml ← rootHtml.bool?
+    let flags ← allSome Sx.bool? flags
+    let kids ← allSome box? kids
+    match layoutBackgrounds rootHtml flags kids with
+    | .error e => pure (errClass e)
+    | .ok (canvas, kids') =>
+      pure (showBg canvas ++ " " ++ " ".intercalate (kids'.flatMap showLaidOut))
   | "sortz", [.list zs] => do
     let zs ← allSome Sx.int? zs
     -- contexts tagged by their index (as the id of a page-less leaf box)
